@@ -1226,7 +1226,10 @@ def gen_cycles(rnd, plan, info, fs, heap, cycles=12, workers=1, warm=3, slack=C0
     sems = [s for s in g.sems if s in ("Default", "Los", "NonMoving")]
     for c in range(cycles):
         target, got = int(heap * frac), 0
-        mix = r.choice(["small", "medium", "mixed", "large"])
+        # "topclass": sizes in the top size classes of the plan's default allocator, just below the large-object
+        # threshold (added after seeded change C09b: the last mark-sweep bin was never released)
+        mix = r.choice(["small", "medium", "mixed", "large", "topclass"])
+        top = max(4096, info.get("maxnonlos", 65536) - info["refoff"] - 32)
         prev = None
         floor_sz = target // 1000          # at most ~1000 allocations per cycle (monitor cost is quadratic)
         while got < target:
@@ -1236,6 +1239,8 @@ def gen_cycles(rnd, plan, info, fs, heap, cycles=12, workers=1, warm=3, slack=C0
                 size = r.choice([2048, 4096, 8000, 16000])
             elif mix == "large":
                 size = r.choice([30000, 70000, 200000, 262144])
+            elif mix == "topclass":
+                size = r.choice([top, top - 8, top - 64, top - 4096, top * 15 // 16, top * 7 // 8 + 8, top * 3 // 4, top // 2 + 8]) & ~7
             else:
                 size = r.choice([64, 256, 1024, 8000, 16000, 70000, 262144])
             if size < floor_sz and r.random() < 0.8:
@@ -1284,6 +1289,13 @@ def heap_for(plan, rnd, small=False):
     return rnd.choice([8, 12, 16] if small else [16, 24, 32, 64]) * MB
 
 
+def with_stress(p, stress):
+    """the same program under `cfg stress <bytes>` (precise stress GC)"""
+    p.stress = stress
+    p.tag = (p.tag or "") + ":stress"
+    return p
+
+
 def suite(name, seed, tier):
     """Deterministic program list of a suite (`common` for C01-C04, `cycles` for C09)."""
     progs = []
@@ -1309,6 +1321,12 @@ def suite(name, seed, tier):
                                   lambda: gen_churn(rnd, plan, info, fs, heap_for(plan, rnd, True), 1500 if not thorough else 6000, w),
                                   lambda: gen_immortal(rnd, plan, info, fs, heap_for(plan, rnd), w),
                                   lambda: gen_destroy(rnd, plan, info, fs, heap_for(plan, rnd, True), w, 10 if not thorough else 40)]
+                        if w == 1 and info["collects"]:
+                            # precise stress GC: every allocation takes alloc_slow_once_precise_stress and a GC is
+                            # triggered every `stress` bytes (added after seeded change C03b: the stress slow path of the
+                            # bump allocator mis-accounted the alignment padding); appended after the classic programs
+                            mk.append(lambda: with_stress(gen_sizes(rnd, plan, info, fs, heap_for(plan, rnd), w, n=140),
+                                                          rnd.choice([4096, 32768, 1 << 18, 1 << 20])))
                         if plan in ("Immix", "GenImmix", "StickyImmix", "ConcurrentImmix") and info["collects"]:
                             # dense-lines (shared with C07): full Immix blocks with per-line mixed liveness; appended LAST so
                             # that the programs above keep their random streams
